@@ -76,8 +76,14 @@ Definition clean_exit (s : lst) : bool :=
   end.
 
 (* the outcome the awaiting task may see; `killed` = the child was killed from outside *)
+(* the awaiting task was cancelled (task.cancel(), asyncio.wait_for timeout): it gets CancelledError.
+   The statement says nothing else about the outcome of a cancelled await, but "leaves no open
+   pipe ends and no un-reaped child process behind" (clean_exit) holds for this exit path like
+   for every other. *)
+Definition is_cancel (f : pfinal) : bool :=
+  match f with FRaise (XCls c) => exn_eqb c CancelledErrorC | _ => false end.
 Definition outcome_ok (b : beh) (killed : bool) (f : pfinal) : bool :=
-  final_meets (demanded b) f || (killed && final_dead f).
+  final_meets (demanded b) f || (killed && final_dead f) || is_cancel f.
 
 (* "Every invocation terminates - including when the child process dies without reporting a
    result": the caller learns of the death through the exception it gets, so that report may
@@ -87,7 +93,7 @@ Definition outcome_ok (b : beh) (killed : bool) (f : pfinal) : bool :=
    be reported by an exception of the same class.  (Not a death: the child reported and the
    outcome got through; the message arrived but cannot be unpickled - b_unp.) *)
 Definition child_died_unreported (b : beh) (killed : bool) (f : pfinal) : bool :=
-  negb (b_unp b) && final_dead f && negb (callee_reports b && final_meets (demanded b) f) &&
+  negb (b_unp b) && final_dead f && negb (is_cancel f) && negb (callee_reports b && final_meets (demanded b) f) &&
   (killed || negb (callee_reports b)).
 Definition same_report (ref f : pfinal) : bool :=
   match ref, f with FRaise (XCls a), FRaise (XCls c) => exn_eqb a c | _, _ => false end.
